@@ -33,9 +33,11 @@ def plan(tier, seed):
 
 def minimums(tier, counters=None):
     if counters and counters.get("unattached.considerPEL"):
-        return {"cli.count_checked": 400, "cli.zero_id_lookups": 50}
+        return {"cli.count_checked": 400, "cli.zero_id_lookups": 50, "cli.lookup_results_checked": 200,
+                "cli.lookup_hidden_or_nonserviceable_expected": 500}
     return {"considerPEL.checked": 16_000_000, "considerPEL.lookup_checked": 2000, "cli.count_checked": 400,
-            "considerPEL.checked_in_cli": 3000}
+            "considerPEL.checked_in_cli": 3000, "cli.lookup_results_checked": 200,
+            "cli.lookup_hidden_or_nonserviceable_expected": 500}
 
 
 def finish(m, tier):
@@ -87,6 +89,26 @@ def install(ctx):
         return res
     pt.considerPEL = considerPEL
     return considerPEL
+
+
+def lookup_result(ctx, d, argv, want, what, ents):
+    from vf import cliparse
+    from vf.refmodels import is_hidden, is_serviceable
+    ctx.current = {"argv": argv}
+    rc, out, err, tb = harness.cli(["-p", d.root] + argv)
+    ctx.count("cli.lookup_results_checked")
+    try:
+        got = sorted(eid for eid, _ in cliparse.parse_list(out))
+    except cliparse.BadOutput:
+        got = None
+    special = [e for e in ents if e.pel.eid in want and (is_hidden(e.pel.flags) or not is_serviceable(e.pel.sev, e.pel.flags))]
+    ctx.counters["cli.lookup_hidden_or_nonserviceable_expected"] += len(special)
+    if tb or got != want:
+        missing = [w for w in want if got is None or w not in got]
+        ctx.violation("C07/lookup-result/" + what.split("(")[0],
+                      "look-up %s (%s) listed %s; %d PELs match, hidden and non-serviceable ones included; missing %s (rc=%s %s)" %
+                      (" ".join(argv[:1]), what, None if got is None else [hex(g) for g in got][:6], len(want),
+                       [hex(m) for m in missing][:6], rc, (tb or "")[-200:]))
 
 
 def run(spec, ctx):
@@ -199,5 +221,21 @@ def run(spec, ctx):
             if tb:
                 ctx.violation("C07/cli-traceback", "peltool %s raised %s" % (argv, tb[-300:]))
         IN_CLI[0] = False
+        # output level: a look-up without selection options reports hidden / non-serviceable matches too
+        with_src = [e for e in ents if e.pel.primary_src()]
+        some = rng.choice(with_src).pel.primary_src().m["refcode"] if with_src else "ZZ"
+        shapes = {"empty": "", "newline": "\n", "comment": "# nothing\n", "nomatch": "NOTHINGMATCHES\n", "one": some + "\n"}
+        for shape, content in shapes.items():
+            with open(excl, "w") as f:
+                f.write(content)
+            want = sorted(e.pel.eid for e in with_src if shape != "one" or e.pel.primary_src().m["refcode"] != some)
+            others = {e.pel.primary_src().m["refcode"] for e in with_src} - {some}
+            if shape == "one" and any(o in some or some in o for o in others):
+                continue                  # exclusion is a text search in the file (C10's assumption)
+            lookup_result(ctx, d, ["--src-exclude", excl], want, "src-exclude(%s file)" % shape, ents)
+        lookup_result(ctx, d, ["--plid", "%08X" % e0.pel.plid], sorted(e.pel.eid for e in ents if e.pel.plid == e0.pel.plid), "plid", ents)
+        if with_src:
+            sub = some[:rng.randrange(2, 9)]
+            lookup_result(ctx, d, ["--src", sub], sorted(e.pel.eid for e in with_src if sub in e.pel.primary_src().m["refcode"]), "src", ents)
         d.remove()
         os.unlink(excl)
